@@ -390,13 +390,20 @@ for _o in _falsy_ops() + [BY_NAME['batch(2)'], BY_NAME['batch(1)']]:
 assert len(set(ZMENU)) == len(ZMENU)
 # one instance per (operator, falsy key class, side) for the longer chains
 ZREDUCED = [
-    'select([0])', 'select([1],0)', 'select(())',
+    'select([0])', 'select([1],0)',
     'apply(f2,[0])', 'apply(f2,())', 'apply(f1,[1],[0])', 'apply(f2,[1],(0,SKIP))',
     'assign([1],f1,0)', 'assign([1],f1,())', 'assign([0],f1,[1])',
     'assign({0:p},fd,[1])',
-    'filter(pred,[0])', 'filter(pred,())', 'filter(pred,{x:0})',
+    'filter(pred,[0])', 'filter(pred,())',
     'sink(S,[0])', 'sink(S,())', 'batch(2)',
 ]
+ZSMALL = [
+    'select([0])', 'select([1],0)', 'apply(f2,())', 'apply(f1,[1],[0])',
+    'apply(f2,[1],(0,SKIP))', 'assign([1],f1,0)', 'assign([0],f1,[1])',
+    'filter(pred,[0])', 'filter(pred,())', 'sink(S,[0])', 'sink(S,())',
+    'batch(2)',
+]
+assert all(n in ZMENU for n in ZREDUCED + ZSMALL)
 
 # reduced menus: one instance per key shape that matters for composition
 REDUCED = [
@@ -887,7 +894,12 @@ def check_aggregate(st, i_in, i_out, stream_ids):
   kin, kout = AGG_IN[i_in], AGG_OUT[i_out]
   op = {'kind': 'apply', 'inp': kin, 'out': kout}
   names, keys = pref.in_keys(op)
-  label = 'in=%s:out=%s' % (spec_name(kin), spec_name(kout))
+  def cls(spec):      # does the spec hold a falsy key?
+    elems = (list(spec.values()) if isinstance(spec, dict) else
+             spec if isinstance(spec, list) else [spec])
+    return 'falsy' if not elems or any(
+        pref.spec_falsy(e) for e in elems) else 'truthy'
+  label = 'in-%s:out-%s' % (cls(kin), cls(kout))
   for driver in AGG_DRIVERS:
     if driver == 'call-record' and len(stream_ids) != 1:
       continue
@@ -1018,7 +1030,7 @@ def run(ctx):
         progs.append(p)
   # (menu, chain length, records per stream)
   zplan = [(ZMENU, 2, 2), (ZREDUCED, 3, 2)] if quick else [
-      (ZMENU, 2, 3), (ZREDUCED, 3, 3), (ZREDUCED, 4, 2)]
+      (ZMENU, 2, 3), (ZREDUCED, 3, 3), (ZSMALL, 4, 2)]
   zseen, zprogs = set(), {2: [], 3: []}
   for menu, n, nrec in zplan:
     for p in programs(menu, n):
